@@ -126,6 +126,11 @@ WBXML_DECLARE(WBXMLTag *) wbxml_tag_duplicate(WBXMLTag *tag)
         break;
     case WBXML_VALUE_LITERAL:
         result->u.literal = wbxml_buffer_duplicate(tag->u.literal);
+        if ((result->u.literal == NULL) && (tag->u.literal != NULL)) {
+            /* Not enough memory */
+            wbxml_free(result);
+            return NULL;
+        }
         break;
     default:
         /* Must Never Happen ! */
@@ -235,6 +240,11 @@ WBXML_DECLARE(WBXMLAttributeName *) wbxml_attribute_name_duplicate(WBXMLAttribut
         break;
     case WBXML_VALUE_LITERAL:
         result->u.literal = wbxml_buffer_duplicate(name->u.literal);
+        if ((result->u.literal == NULL) && (name->u.literal != NULL)) {
+            /* Not enough memory */
+            wbxml_free(result);
+            return NULL;
+        }
         break;
     default:
         /* Must Never Happen ! */
@@ -309,6 +319,14 @@ WBXML_DECLARE(WBXMLAttribute *) wbxml_attribute_duplicate(WBXMLAttribute *attr)
 
     result->name = wbxml_attribute_name_duplicate(attr->name);
     result->value = wbxml_buffer_duplicate(attr->value);
+
+    if (((result->name == NULL) && (attr->name != NULL)) ||
+        ((result->value == NULL) && (attr->value != NULL)))
+    {
+        /* Not enough memory */
+        wbxml_attribute_destroy(result);
+        return NULL;
+    }
 
     return result;
 }
